@@ -1167,6 +1167,10 @@ package hermes
 //@   requires year: g.JTAG == 365 || g.JTAG == 366
 //@   ensures[C04,C05] nextday: ite(old(g.TAG.Index) + 2 > old(g.JTAG), g.TAG.Index == 0 && g.J == old(g.J) + 1, g.TAG.Index == old(g.TAG.Index) + 1 && g.J == old(g.J))
 //@   ensures[C04,C05] dual: g.TAG.Num == real(g.TAG.Index + 1)
+// a year is left only when the weather of the WHOLE calendar year was loaded: a year file that ends early ends the run
+// with an error (defect F32, repaired) instead of shortening the year and shifting every later day to another date's record
+//@   requires[C04] century: 1 <= g.J && g.J < 199
+//@   ensures[C04] fullyear: old(g.TAG.Index) + 2 > old(g.JTAG) ==> old(g.JTAG) >= ite(leap(1900 + old(g.J)), 366, 365)
 //@   ensures[C04,C11] loadererrors: !werr
 //@   ensures[C04] reload: g.TAG.Index == 0 && (driConfig.WeatherFileFormat == 0 || driConfig.WeatherFileFormat == 1 || driConfig.WeatherFileFormat == 2) ==> exists(y, 0, len(bbbShared.MaxYearDays), bbbShared.JAR[y] == 1900 + g.J && g.JTAG == bbbShared.MaxYearDays[y])
 
